@@ -127,7 +127,8 @@ func getEndOfLastValuePositionInFile(fname string, startPos int64) (int64, error
 			}
 			rd := resp.NewReader(f)
 			_, telnet, n, err := rd.ReadMultiBulk()
-			if err != nil || telnet {
+			if err != nil || telnet || pos+int64(n) > startPos {
+				// not a value, or one that ends after startPos
 				continue // keep reading backwards
 			}
 			return pos + int64(n), nil
@@ -221,9 +222,13 @@ func (s *Server) followCheckSome(addr string, followc int, auth string,
 	// search for nearest command
 	pos, err = getEndOfLastValuePositionInFile(s.aof.Name(), fullpos)
 	if err != nil {
+		if err == io.EOF {
+			// no complete command inside the verified part
+			return 0, s.followDiscardLog()
+		}
 		return 0, err
 	}
-	if pos == fullpos {
+	if pos == fullpos && fullpos == int64(s.aofsz) {
 		if s.opts.ShowDebugMessages {
 			log.Debug("follow: aof fully intact")
 		}
